@@ -33,7 +33,7 @@ func init() {
 				Rule: "case = one input byte string. Exhaustive: every string of length <= 7 (<= 9 thorough) over 7 bytes: one representative per tokenizer class (blank, newline, backslash, single quote, double quote) and two 'other' bytes; plus a position sweep (one byte of every value at every offset of otherwise plain text of every length 1..40 and around 64/128; pairs of special bytes at every two offsets), every single byte 0..255 in five contexts (classification of all byte values), inputs of 4090..65537 bytes whose tokens and quoted spans cross buffer boundaries, and random inputs up to 200 bytes over a wider alphabet (tab, CR, VT, FF, NBSP, $, `, #, non-ASCII). " +
 					"Per input: Split's fields and completeness flag vs the reference; Scanner over a one-byte-at-a-time reader and over fixed and random fragmentations, including readers that return the last bytes together with io.EOF and readers that sometimes return (0, nil) (Next/Text, Complete after the last token, Next stays false and Err stays io.EOF afterwards); Each with early stop; Scanner.Split; Rest called after the k-th token for every k must yield exactly input[offset_k:] (also when Rest is asked for twice, a few bytes read through the first reader and the remainder through the second) and Next must then stay false; every rune U+0080..U+FFFF (and a stride of the other planes) at the start of the input and in every quoting context, plus byte-order marks, '#!', CR LF and escape sequences; a reader that fails with a non-EOF error must surface through Err; remainders from Rest kept unread while their scanners are dropped, garbage collections are forced and new scanners are created and used, then read and compared. Complete inputs without other metacharacters and without unquoted newlines are also split by dash and 'bash +B' (length <= 6 exhaustive). Reset reuse and the pooled Split run concurrently under -race. " +
 					"distinct = the input (enumerated); non-trivial = it contains a quote or backslash",
-				Required:     []string{"inputs", "state_class_pairs_covered_of_42", "scanner_fragmentations", "rest_calls", "shell_inputs_dash", "shell_inputs_bash", "incomplete_inputs", "all_byte_values", "concurrent_splits", "long_inputs", "rest_after_reset", "rest_asked_twice", "rune_sweep_inputs", "position_sweep_inputs", "rest_readers_kept_across_gc"},
+				Required:     []string{"inputs", "state_class_pairs_covered_of_42", "scanner_fragmentations", "rest_calls", "shell_inputs_dash", "shell_inputs_bash", "incomplete_inputs", "all_byte_values", "concurrent_splits", "long_inputs", "rest_after_reset", "rest_asked_twice", "rune_sweep_inputs", "position_sweep_inputs", "rest_readers_kept_across_gc", "reset_after_rest", "reset_onto_own_rest"},
 				Exhaustive:   true,
 				Assumptions:  []string{"reference tokenizer written from XCU 2.2 with the package's documented deviation: inside double quotes a backslash escapes only the double quote, backslash and newline; $ and ` are ordinary bytes", "dash and bash (+B, LC_ALL=C) as installed"},
 				CoverPkgs:    []string{"github.com/creachadair/mds/shell"},
@@ -346,6 +346,43 @@ func (m *c16mon) check(in string, r *rand.Rand, deep bool) bool {
 			if sc.Next() || sc.Text() != "" {
 				c.Fail(data, "after Rest(), Next=true or Text=%q", sc.Text())
 				panic(errStop)
+			}
+			if k%4 == 3 && off <= len(in) {
+				// resume tokenizing after a raw section: a fresh scanner reads k
+				// tokens, a few raw bytes are taken through Rest, and the scanner is
+				// Reset onto its own Rest reader
+				sc3 := shell.NewScanner(&chunkReader{data: in, sizes: sizes})
+				for j := 0; j < k; j++ {
+					sc3.Next()
+				}
+				rr := sc3.Rest()
+				raw := make([]byte, min(k%5, len(in)-off))
+				nr, _ := io.ReadFull(rr, raw)
+				c.Call("shell.Scanner.Reset(its own Rest reader) then Next, input %q", in)
+				sc3.Reset(rr)
+				var got []string
+				for sc3.Next() {
+					got = append(got, sc3.Text())
+				}
+				wantT, wantC := refSplit(in[off+nr:], nil)
+				if !equalStrings(got, refTexts(wantT)) || sc3.Complete() != wantC {
+					c.Fail(data, "after %d tokens and %d raw bytes read through Rest, Reset(Rest reader) and scanning yields %q (complete=%v), the reference on the remaining input %q gives %q (%v)", k, nr, got, sc3.Complete(), in[off+nr:], refTexts(wantT), wantC)
+					panic(errStop)
+				}
+				c.Add("reset_onto_own_rest", 1)
+			}
+			if k%4 == 2 {
+				// the scanner re-targeted after Rest: a complete fresh scan
+				sc.Reset(&chunkReader{data: "after 'the rest' \"a new\" input\\ x", sizes: []int{1 + k%5}})
+				var got []string
+				for sc.Next() {
+					got = append(got, sc.Text())
+				}
+				if !equalStrings(got, []string{"after", "the rest", "a new", "input x"}) || !sc.Complete() || sc.Err() != io.EOF {
+					c.Fail(data, "Reset after Rest(): the scanner yields %q (complete=%v err=%v) on the new input", got, sc.Complete(), sc.Err())
+					panic(errStop)
+				}
+				c.Add("reset_after_rest", 1)
 			}
 		}
 		// a failing reader surfaces through Err
